@@ -19,7 +19,8 @@ def main():
     if hd == "root":
         for k, v in common.STD.items():
             ov[k] = s.pkgpath(hd) + "." + v
-    r = Run(prog, ent, K=K, verbose=True, overrides=ov)
+    inits = [s.pkgpath(hd)] + ([] if hd == "schema" else ["github.com/olive-io/bpmn/schema"])
+    r = Run(prog, ent, K=K, verbose=True, overrides=ov, inits=inits)
     t0 = time.time()
     r.execute()
     m = r.m
